@@ -60,6 +60,8 @@ type hxSrv struct {
 	onlyOK     bool     // honest server: every reply is the expected one
 	stallAt    int      // command index at which the server goes silent (-1: never)
 	hsStall    bool     // the TLS handshake never completes (silent peer)
+	contentStall bool   // the server stops reading once DATA was accepted: writes of the content block
+	wdlSet     bool     // a write deadline is armed (deadlineSet: a read deadline)
 	textOf     func(c *hxCmd, okReply bool) string
 	authFn     func(s *hxSrv, line string) // AUTH / continuation handler (nil: 502)
 	inAuth     bool
@@ -606,6 +608,15 @@ func (c *hxConn) Write(p []byte) (int, error) {
 	if s.monitor {
 		svAssert(s.greetingRead, "C04 data sent before the greeting was read")
 	}
+	if s.contentStall && s.inData {
+		// the peer no longer drains the connection: once the buffers are full a
+		// write returns only when a write deadline expires
+		s.stalled = true
+		if !s.wdlSet {
+			svAssert(false, "C17 blocking write with no write deadline armed ("+s.phase+": the server stopped reading during the message content)")
+		}
+		return 0, hxTimeoutErr{}
+	}
 	if s.probe != nil {
 		svAssert(s.probe(), "C13 write to the shared connection without the send lock")
 	}
@@ -622,6 +633,11 @@ func (c *hxConn) Close() error {
 func (c *hxConn) LocalAddr() net.Addr  { return hxAddr{} }
 func (c *hxConn) RemoteAddr() net.Addr { return hxAddr{} }
 func (c *hxConn) SetDeadline(t time.Time) error {
+	c.s.wdlSet = !t.IsZero()
+	return c.setReadDeadline(t)
+}
+
+func (c *hxConn) setReadDeadline(t time.Time) error {
 	c.s.deadline, c.s.deadlineSet = t, !t.IsZero()
 	c.s.deadlineCalls++
 	if c.s.expectTimeout > 0 && !t.IsZero() {
@@ -632,5 +648,8 @@ func (c *hxConn) SetDeadline(t time.Time) error {
 	}
 	return nil
 }
-func (c *hxConn) SetReadDeadline(t time.Time) error  { return c.SetDeadline(t) }
-func (c *hxConn) SetWriteDeadline(t time.Time) error { return c.SetDeadline(t) }
+func (c *hxConn) SetReadDeadline(t time.Time) error { return c.setReadDeadline(t) }
+func (c *hxConn) SetWriteDeadline(t time.Time) error {
+	c.s.wdlSet = !t.IsZero()
+	return nil
+}
